@@ -331,12 +331,12 @@ BAD_FILTERS = ['payments >= 12', 'total > "x"', 'sum(total) > 1', 'avg(category)
                'max(sum(by("month"))) > "a"', 'nosuchfn(total)', 'total > 0 and payments > 1', 'sum(payments, 1, 2) > 0', 'cv < category',
                'category == "Food" and (total % "2") == 0', 'myvar > 1', 'localbad + 1 > 0', 'months >= period("fortnight")']
 GOOD_FILTERS = ['True', 'total > 0', 'category == "Food"', 'months >= 2', '"recurring" in tags', 'sum(payments) > 100', 'max(sum(by("month"))) > 50',
-                'cv < 0.5', 'total > 0 or payments > 1', 'False and payments > 1', 'count(payments) >= 2 and avg(payments) > 10']
+                'cv < 0.5', 'total > 0 or payments > 1', 'False and payments > 1', 'count(payments) >= 2 and avg(payments) > 10', 'total > myvar', 'g2 or total > 50']
 
 view_st = st.fixed_dictionaries({
     'name': st.sampled_from(['Alpha', 'Beta', 'Gamma', 'Delta', 'Food & Drink', 'Big', 'Rare']),
     'filter': st.one_of(st.sampled_from(BAD_FILTERS), st.sampled_from(GOOD_FILTERS)),
-    'vars': st.lists(st.tuples(st.sampled_from(['localbad', 'lv', 'Thresh']), st.sampled_from(['total / "x"', 'sum(payments)', 'payments + 1', '5', 'unknown + 1'])).map(list),
+    'vars': st.lists(st.tuples(st.sampled_from(['localbad', 'lv', 'Thresh', 'myvar', 'g2']), st.sampled_from(['total / "x"', 'sum(payments)', 'payments + 1', '5', 'unknown + 1', 'avg(payments) * (2 if months > 1 else "twice")'])).map(list),
                      max_size=2, unique_by=lambda p: p[0]),
 })
 merchant_st = st.fixed_dictionaries({
